@@ -396,3 +396,78 @@ class c_parse_version:
                 le(result["nonce"], 8) == data[72:80], result["subversion"] == data[s0:s0 + n],
                 le(result["last_block_index"], 4) == data[s0 + n:end],
                 (result["relay"] is None) == (len(data) == end))
+
+
+# ---------------------------------------------------------------- pack then parse, per field code
+import io as _io
+
+
+def _roundtrip(code):
+    parse_f, stream_f = FUNCS[code]
+
+    def rt(v):
+        f = _io.BytesIO()
+        stream_f(f, v)
+        return parse_f(_io.BytesIO(f.getvalue()))
+    rt.__name__ = "roundtrip_" + {'#': 'hash32', '@': 'addr16'}.get(code, code)
+    return rt
+
+
+roundtrip_L, roundtrip_Q, roundtrip_h, roundtrip_1 = _roundtrip('L'), _roundtrip('Q'), _roundtrip('h'), _roundtrip('1')
+roundtrip_6, roundtrip_b, roundtrip_O = _roundtrip('6'), _roundtrip('b'), _roundtrip('O')
+roundtrip_hash32, roundtrip_addr16 = _roundtrip('#'), _roundtrip('@')
+
+
+def _rt_contract(fn, builder, pre=None):
+    class C:
+        props = ["C16"]
+        sig = dict(v=builder)
+
+        def ensures_same(v, result):
+            return result == v
+    if pre is not None:
+        C.requires = staticmethod(pre)
+    C.__name__ = "c_" + fn.__name__
+    C.func = staticmethod(lambda: fn)
+    contract("contracts.c16_msg:" + fn.__name__)(C)
+
+
+_rt_contract(roundtrip_L, Int(0, 2 ** 32 - 1))
+_rt_contract(roundtrip_Q, Int(0, 2 ** 64 - 1))
+_rt_contract(roundtrip_h, Int(0, 2 ** 16 - 1))
+_rt_contract(roundtrip_1, Int(0, 255))
+_rt_contract(roundtrip_6, Int(0, 2 ** 48 - 1))
+_rt_contract(roundtrip_b, Bool())
+_rt_contract(roundtrip_O, Opt(Bool()))
+_rt_contract(roundtrip_hash32, Bytes(n=32))
+_rt_contract(roundtrip_addr16, Bytes(n=16))
+
+
+def roundtrip_peer_address(services, ip_bin, port):
+    f = _io.BytesIO()
+    PeerAddress(services, ip_bin, port).stream(f)
+    return PeerAddress.parse(_io.BytesIO(f.getvalue()))
+
+
+def roundtrip_inv_item(item_type, data):
+    f = _io.BytesIO()
+    InvItem(item_type, data, dont_check=True).stream(f)
+    return InvItem.parse(_io.BytesIO(f.getvalue()))
+
+
+@contract("contracts.c16_msg:roundtrip_peer_address")
+class c_roundtrip_peer_address:
+    props = ["C16"]
+    sig = dict(services=U64, ip_bin=Bytes(n=16), port=Int(0, 65535))
+
+    def ensures_same(services, ip_bin, port, result):
+        return (result.services == services, result.ip_bin == ip_bin, result.port == port)
+
+
+@contract("contracts.c16_msg:roundtrip_inv_item")
+class c_roundtrip_inv_item:
+    props = ["C16"]
+    sig = dict(item_type=Int(0, 2 ** 32 - 1), data=Bytes(n=32))
+
+    def ensures_same(item_type, data, result):
+        return (result.item_type == item_type, result.data == data)
